@@ -13,3 +13,4 @@ INVARIANT MarginalsAgree
 INVARIANT OrderIndependent
 INVARIANT CashFlowLaw
 INVARIANT ExcludedIffSpecialBucket
+INVARIANT ClassAbstractionSound
